@@ -28,6 +28,7 @@ fn enc(c: &C) -> Vec<String> {
     w.0
 }
 fn dec(t: &[String]) -> Option<C> {
+    let (t, _) = split_flavour(t);
     let mut r = R::new(t);
     let ty = r.u64()?;
     let regions = r.list(Rec::get)?;
@@ -50,16 +51,18 @@ fn valid(c: &C) -> bool {
 pub fn f64_tok(x: f64) -> String { if x.fract() == 0.0 && x.abs() < 9.0e15 { format!("{}", x as i64) } else { format!("{:?}", x) } }
 
 macro_rules! run_typed {
-    ($n:ty, $c:expr) => {{
+    ($n:ty, $c:expr, $fl:expr) => {{
         let c = $c;
-        let set: GIntervalIndexSet = c.regions.iter().map(|r| r.gr()).collect();
+        let fl: u64 = $fl;
+        // regions and tags carried by the flavour's BEDLike implementor (field variant rotating per record)
+        let set: GIntervalIndexSet = crate::with_bedlikes!(fl, &c.regions, |xs| xs.into_iter().collect());
         let mut d: Coverage<$n> = Coverage::new(&set);
         let mut s: SparseCoverage<$n> = SparseCoverage::new(&set);
         let mut w = W::new();
         w.n(c.ops.len());
-        for o in &c.ops {
+        for (oi, o) in c.ops.iter().enumerate() {
             match o {
-                Op::Tag(t, k) => { d.insert(&t.gr(), *k as $n); s.insert(&t.gr(), *k as $n); }
+                Op::Tag(t, k) => { crate::with_bedlike!(rot_flavour(fl, oi), t, |x| { d.insert(&x, *k as $n); s.insert(&x, *k as $n); }); }
                 Op::At(i, k) => { d.insert_at_index::<GenomicRange>(*i, *k as $n); s.insert_at_index::<GenomicRange>(*i, *k as $n); }
                 Op::Reset => { d.reset(); s.reset(); }
             }
@@ -77,10 +80,12 @@ macro_rules! run_typed {
 
 fn exec(t: &[String]) -> Option<String> {
     let c = dec(t)?;
-    Some(if c.ty == 0 { run_typed!(i64, &c) } else { run_typed!(u64, &c) })
+    let fl = split_flavour(t).1;
+    Some(if c.ty == 0 { run_typed!(i64, &c, fl) } else { run_typed!(u64, &c, fl) })
 }
 
-fn shrink(t: &[String]) -> Vec<Vec<String>> {
+fn shrink(t: &[String]) -> Vec<Vec<String>> { shrink_flavoured(t, shrink0) }
+fn shrink0(t: &[String]) -> Vec<Vec<String>> {
     let Some(c) = dec(t) else { return vec![] };
     let mut out = vec![];
     for ops in shrink_vec(&c.ops) { out.push(C { ops, ..c.clone() }); }
@@ -151,6 +156,7 @@ fn gen(rng: &mut Rng, tier: Tier) -> Vec<Case> {
         }
         out.push(Case::new(if small { "boundary" } else { "random" }, enc(&C { ty, regions, ops })));
     }
+    add_flavours(rng, &mut out);
     out
 }
 
